@@ -244,7 +244,13 @@ def _list_buildoptions(coredata: cdata.CoreData, subprojects: T.Optional[T.List[
 
     def add_keys(opts: T.Union[options.MutableKeyedOptionDictType, options.OptionStore], section: str) -> None:
         for key, opt in sorted(opts.items()):
-            optdict = {'name': str(key), 'value': opt.value, 'section': section,
+            # What get_option() returns: a yielding option has its parent's
+            # value, a per-subproject override replaces the global one.
+            try:
+                value = coredata.optstore.get_value_for(key)
+            except KeyError:
+                value = opt.value
+            optdict = {'name': str(key), 'value': value, 'section': section,
                        'machine': key.machine.get_lower_case_name() if coredata.optstore.is_per_machine_option(key) else 'any'}
             if isinstance(opt, options.UserStringOption):
                 typestr = 'string'
